@@ -1,0 +1,156 @@
+//go:build verif
+
+// Package verif holds the verification hooks used by the external
+// model-based checking harness (build tag "verif").
+//
+// Ev is called inside the critical section that performed a state change,
+// after the change and before the protecting lock is released; the global
+// sequence number it assigns therefore respects the order of those
+// critical sections. Yield is called between critical sections, outside
+// every lock, and blocks only when a gate function has been installed.
+package verif
+
+import (
+	"bufio"
+	"encoding/json"
+	"os"
+	"strconv"
+	"strings"
+	"sync"
+	"sync/atomic"
+	"syscall"
+)
+
+// On reports whether the hooks are compiled in.
+const On = true
+
+// Event is one recorded hook event.
+type Event struct {
+	Seq int64
+	Ev  string
+	KV  []interface{}
+}
+
+// Map renders the event as a flat map (for JSON output).
+func (e Event) Map() map[string]interface{} {
+	m := make(map[string]interface{}, len(e.KV)/2+2)
+	m["seq"] = e.Seq
+	m["ev"] = e.Ev
+	for i := 0; i+1 < len(e.KV); i += 2 {
+		m[e.KV[i].(string)] = e.KV[i+1]
+	}
+	return m
+}
+
+var (
+	mu      sync.Mutex
+	seq     int64
+	enabled int32
+	sink    func(Event)
+	gate    atomic.Value // func(point string, key interface{})
+	fileW   *bufio.Writer
+	fileF   *os.File
+
+	crashPoint string
+	crashNth   int64
+	crashSeen  int64
+	crashMode  string
+)
+
+// SetSink installs (or with nil removes) the event consumer. The sink is
+// called with the package mutex held, in sequence order.
+func SetSink(f func(Event)) {
+	mu.Lock()
+	sink = f
+	if f != nil || fileW != nil {
+		atomic.StoreInt32(&enabled, 1)
+	} else {
+		atomic.StoreInt32(&enabled, 0)
+	}
+	mu.Unlock()
+}
+
+// SetGate installs (or with nil removes) the yield-point controller.
+func SetGate(f func(point string, key interface{})) {
+	if f == nil {
+		gate.Store((func(string, interface{}))(nil))
+		return
+	}
+	gate.Store(f)
+}
+
+// Ev records one event (name followed by key/value pairs).
+func Ev(name string, kv ...interface{}) {
+	if atomic.LoadInt32(&enabled) == 0 {
+		return
+	}
+	mu.Lock()
+	seq++
+	e := Event{Seq: seq, Ev: name, KV: kv}
+	if sink != nil {
+		sink(e)
+	}
+	if fileW != nil {
+		b, err := json.Marshal(e.Map())
+		if err == nil {
+			fileW.Write(b)
+			fileW.WriteByte('\n')
+			fileW.Flush()
+		}
+	}
+	mu.Unlock()
+}
+
+// Yield is a scheduling point between two critical sections.
+func Yield(point string, key interface{}) {
+	g, _ := gate.Load().(func(string, interface{}))
+	if g != nil {
+		g(point, key)
+	}
+}
+
+// CrashPoint kills the process (SIGKILL) when VERIF_CRASH=<point>:<n>
+// selects the n-th time this point is reached.
+func CrashPoint(point string) {
+	if crashPoint == "" || point != crashPoint {
+		return
+	}
+	if atomic.AddInt64(&crashSeen, 1) == crashNth {
+		if fileW != nil {
+			mu.Lock()
+			fileW.Flush()
+			mu.Unlock()
+		}
+		if crashMode == "term" {
+			syscall.Kill(os.Getpid(), syscall.SIGTERM)
+			return
+		}
+		syscall.Kill(os.Getpid(), syscall.SIGKILL)
+		select {}
+	}
+}
+
+func init() {
+	if fn := os.Getenv("VERIF_TRACE_FILE"); fn != "" {
+		fn = strings.Replace(fn, "%p", strconv.Itoa(os.Getpid()), -1)
+		f, err := os.OpenFile(fn, os.O_WRONLY|os.O_CREATE|os.O_APPEND, 0644)
+		if err == nil {
+			fileF = f
+			fileW = bufio.NewWriter(f)
+			atomic.StoreInt32(&enabled, 1)
+		}
+	}
+	if c := os.Getenv("VERIF_CRASH"); c != "" {
+		parts := strings.Split(c, ":")
+		crashPoint = parts[0]
+		crashNth = 1
+		if len(parts) > 1 {
+			if n, err := strconv.ParseInt(parts[1], 10, 64); err == nil {
+				crashNth = n
+			}
+		}
+		if len(parts) > 2 {
+			crashMode = parts[2]
+		}
+	}
+}
